@@ -14,6 +14,8 @@ mod outline;
 mod round;
 mod stack;
 mod storage;
+#[cfg(googlefonts_fontations_verif)]
+pub mod verif_hooks;
 
 use read_fonts::{
     tables::glyf::bytecode::Instruction,
